@@ -138,6 +138,7 @@ func (t *traceWriter) writeExec(evs []run.M, behIndex int) {
 		t.w.WriteByte('\n')
 		t.lines++
 	}
+	t.w.Flush() // a crash later on leaves every completed execution on disk
 	fmt.Fprintf(t.idx, "%d %d %d\n", first, t.lines, behIndex)
 }
 
@@ -199,7 +200,7 @@ func cmdSched(args []string) {
 	out := fs.String("out", "trace.ndjson", "abstract trace (ndjson)")
 	fs.Int64("seed", 1, "unused")
 	progress := fs.String("progress", "", "progress file")
-	fs.Int("seedindex", 0, "unused")
+	seedIndex := fs.Int("seedindex", 0, "offset added to the schedule index (replay of one schedule)")
 	fs.String("proj", "", "unused")
 	fs.Parse(args)
 	behs := readBehaviours(*in)
@@ -214,6 +215,7 @@ func cmdSched(args []string) {
 			pf.Seek(0, 0)
 			fmt.Fprintf(pf, "%-12d\n", i)
 		}
+		b["_i"] = i + *seedIndex
 		evs, err := run.PlaySched(b)
 		if err != nil {
 			die("schedule %d: %v", i, err)
